@@ -650,3 +650,73 @@ def const_int(node: ast.AST, env: Optional[Dict[str, int]] = None) -> Optional[i
         except ZeroDivisionError:
             return None
     return None
+
+
+# --------------------------------------------------------------------------
+# canonical tests: negations pushed into the polarity, comparison operators in one direction
+# --------------------------------------------------------------------------
+_CANON_OP = {ast.NotEq: ast.Eq, ast.GtE: ast.Lt, ast.Gt: ast.LtE, ast.NotIn: ast.In, ast.IsNot: ast.Is}
+
+
+def canon_test(test: ast.AST, pol: bool = True) -> Tuple[str, bool]:
+    """(text, polarity), one representative per predicate: `not X` -> (X, not pol); != -> ==, not in -> in,
+    is not -> is with the polarity flipped; ordering comparisons written with `<` or `<=` and the operands in
+    lexical order (a > b, b < a, not a <= b, not b >= a all give the same pair); == operands sorted."""
+    t = test
+    while isinstance(t, ast.UnaryOp) and isinstance(t.op, ast.Not):
+        t, pol = t.operand, not pol
+    if isinstance(t, ast.Compare) and len(t.ops) == 1:
+        op = type(t.ops[0])
+        l, r = norm(t.left).replace(" ", ""), norm(t.comparators[0]).replace(" ", "")
+        if op in (ast.Gt, ast.GtE):
+            l, r, op = r, l, {ast.Gt: ast.Lt, ast.GtE: ast.LtE}[op]
+        if op in (ast.Lt, ast.LtE):
+            if l > r:                                   # a < b  ==  not (b <= a)
+                l, r, op, pol = r, l, {ast.Lt: ast.LtE, ast.LtE: ast.Lt}[op], not pol
+            return "%s%s%s" % (l, "<" if op is ast.Lt else "<=", r), pol
+        if op in (ast.Eq, ast.NotEq):
+            a, b = sorted([l, r])
+            return "%s==%s" % (a, b), (pol if op is ast.Eq else not pol)
+        if op in (ast.In, ast.NotIn):
+            return "%sin%s" % (l + " ", " " + r), (pol if op is ast.In else not pol)
+        if op in (ast.Is, ast.IsNot):
+            return "%sis%s" % (l + " ", " " + r), (pol if op is ast.Is else not pol)
+    if isinstance(t, ast.BoolOp):                       # one form for and/or: a and b == not (not a or not b)
+        isand = isinstance(t.op, ast.And)
+        kids = sorted(canon_test(v, not isand) if isand else canon_test(v, True) for v in t.values)
+        return "or(%s)" % ",".join(("" if p else "!") + x for x, p in kids), (not pol if isand else pol)
+    return norm(t).replace(" ", ""), pol
+
+
+def conjuncts(test: ast.AST, pol: bool = True) -> List[Tuple[str, bool]]:
+    """Canonical literals that all hold when `test` has truth value `pol` (a and b -> a, b; not (a or b) -> !a, !b)."""
+    t = test
+    while isinstance(t, ast.UnaryOp) and isinstance(t.op, ast.Not):
+        t, pol = t.operand, not pol
+    if isinstance(t, ast.BoolOp) and isinstance(t.op, ast.And if pol else ast.Or):
+        out: List[Tuple[str, bool]] = []
+        for v in t.values:
+            out += conjuncts(v, pol)
+        return out
+    return [canon_test(t, pol)]
+
+
+def cguards_of(node: ast.AST, pm: Dict[int, ast.AST], split: bool = False) -> List[Tuple[str, bool]]:
+    if split:
+        return sorted(x for t, p in guards_of(node, pm) for x in conjuncts(t, p))
+    return sorted(canon_test(t, p) for t, p in guards_of(node, pm))
+
+
+def cconds(path: "Path") -> List[Tuple[str, bool]]:
+    return [canon_test(t, o) for t, o in path.conds()]
+
+
+def ctext(src: str) -> Tuple[str, bool]:
+    """Canonical form of a test given as source text."""
+    return canon_test(ast.parse(src, mode="eval").body, True)
+
+
+def branches(ifnode: ast.If) -> Tuple[str, List[ast.stmt], List[ast.stmt]]:
+    """(canonical test text, statements run when it is true, statements run when it is false)."""
+    txt, pol = canon_test(ifnode.test, True)
+    return (txt, ifnode.body, ifnode.orelse) if pol else (txt, ifnode.orelse, ifnode.body)
